@@ -68,6 +68,7 @@ type Scenario struct {
 	DefTimeout  bool             `json:"def_timeout,omitempty"`   // Transfer.ReadTimeout is left at zero: the documented default of 2 s applies (read_timeout_ms is 2000)
 	QCase       bool             `json:"qcase,omitempty"`         // the zone is asked for in another letter case than the one the sender spells it in
 	LocalClose  int              `json:"local_close,omitempty"`   // the application closes the transfer's connection itself after taking this many envelopes
+	NoDeadlines bool             `json:"no_deadlines,omitempty"`  // the caller-supplied connection is of a kind that cannot time out (SetReadDeadline reports an error): a transfer over a healthy link is complete all the same
 	FinWithLast bool             `json:"fin_with_last,omitempty"` // a link without faults whose far end closes right behind the closing envelope: the receiver's last read may return the last octets together with io.EOF, as an io.Reader may (a TLS connection, a tunnel)
 	Big         int              `json:"big,omitempty"`           // axfr / ixfr-axfr: the envelope that holds the second record of the zone is filled up with TXT records until its message - as the sender builds it, unsigned TSIG stub included - is 65535 + Big - 1000 octets long (Big 1000: exactly what a stream can frame before the MAC is added; 0 = off)
 }
@@ -278,6 +279,9 @@ func Gen(seed uint64, tier string) any {
 	}
 	if len(sc.Ops) == 0 && sc.CutAt == 0 && !sc.BadFirst && sc.Rcode == 0 && sc.WrongID == 0 && !sc.Trailing && sc.LocalClose == 0 && sc.OutFailAt == 0 && core.Chance(r, 12) {
 		sc.FinWithLast = true
+	}
+	if len(sc.Ops) == 0 && sc.CutAt == 0 && !sc.BadFirst && sc.Rcode == 0 && sc.WrongID == 0 && !sc.Trailing && sc.OutFailAt == 0 && sc.Dial == "" && sc.Big == 0 && core.Chance(r, 8) {
+		sc.NoDeadlines = true
 	}
 	if sc.TimeoutMs != 2000 {
 		sc.DefTimeout = false
@@ -848,7 +852,7 @@ func readFull(c *simnet.StreamConn, p []byte) bool {
 		k, err := c.Read(p[n:])
 		n += k
 		if err != nil {
-			return false
+			return n == len(p) // (the last octets may come together with the end of the stream)
 		}
 	}
 	return true
@@ -1320,6 +1324,10 @@ func runIn(sc *Scenario, res *core.Result, verbose bool) {
 	if sc.CutAt > 0 {
 		cli.CutAfter(sc.CutAt, sc.CutRST)
 	}
+	if sc.NoDeadlines && sc.Dial == "" {
+		cli.NoDeadlines = true
+		res.Bump("fault.receiver_connection_without_deadlines")
+	}
 	x.relay = &common.Relay{K: k, ToClient: relayC, ToServer: relayS, Ops: sc.Ops, WrongSecret: secretBad, RightSecret: secretGood, KeyName: keyName, Alg: sc.Alg, HeldKey: heldKeyName, HeldSecret: heldSecret}
 	if sc.FinWithLast {
 		x.relay.FinAfter = len(envelopes(sc))
@@ -1353,6 +1361,13 @@ func runIn(sc *Scenario, res *core.Result, verbose bool) {
 
 //go:norace
 func hour() time.Duration { return time.Hour }
+
+func abs(v int) int {
+	if v < 0 {
+		return -v
+	}
+	return v
+}
 
 //go:norace
 func (x *run) judge(start0 time.Time) {
@@ -1451,6 +1466,24 @@ func (x *run) judge(start0 time.Time) {
 		wrote, _ := oracle.Frames(x.relay.ToServer.Peer.Sent())
 		if fed := len(envelopes(sc)); len(wrote) < fed {
 			res.Fail("T4", "out-error-swallowed", "Transfer.Out was handed %d envelopes and returned nil, but only %d whole envelopes were written to the sender's socket (a write failed on the way: %v)", fed, len(wrote), sc.OutFailAt > 0)
+			return
+		}
+	}
+	// receiver side, healthy run: a sender that transmits a complete, valid zone over a link without faults, at its
+	// own steady pace, to an application that takes the envelopes as they come - the receiver has no reason to
+	// give up, whatever kind of connection it was handed. (The reference verdict below goes by what was
+	// delivered, and a receiver that hangs up early has little delivered to it.)
+	healthy := len(sc.Ops) == 0 && sc.CutAt == 0 && !sc.BadFirst && sc.Rcode == 0 && sc.WrongID == 0 && !sc.Trailing && sc.LocalClose == 0 &&
+		sc.OutFailAt == 0 && sc.Big == 0 && sc.ConsumerMs == 0 && sc.PaceMs == 0 && sc.OutPaceMs == 0 && !sc.EmptyKeys && sc.StepBack == 0 &&
+		(sc.Alg == "" || (sc.ClientKey && sc.ServerKey && abs(sc.SkewS) < max(sc.Fudge, 1))) && !x.localClosed
+	if healthy {
+		res.Bump("oracle.T1_healthy_transfer_completes")
+		last := ""
+		if len(x.items) > 0 {
+			last = x.items[len(x.items)-1].err
+		}
+		if last != "" {
+			res.Fail("T1", "healthy-transfer-failed", "a complete, valid transfer of %d envelope(s) sent over a link without faults ended with %q after %d item(s) (connection without deadlines: %v)", len(envelopes(sc)), last, len(x.items), sc.NoDeadlines)
 			return
 		}
 	}
